@@ -22,11 +22,13 @@ import (
 	"github.com/EliCDavis/polyform/formats/spz"
 	"github.com/EliCDavis/polyform/formats/stl"
 	"github.com/EliCDavis/polyform/modeling"
+	"github.com/EliCDavis/vector/vector3"
 	"pgregory.net/rapid"
 
 	"verifharness/internal/gen"
 	"verifharness/internal/oracle"
 	"verifharness/internal/plyref"
+	"verifharness/internal/rdr"
 	"verifharness/internal/vh"
 )
 
@@ -56,6 +58,12 @@ type Case struct {
 	Version, NumPoints, ShDegree, FracBits int `json:",omitempty"`
 	Raw                                    []byte
 	// pts
+	// Reader: how the bytes reach the decoder (see internal/rdr): plain, one byte per Read, half reads, ...
+	Reader int `json:",omitempty"`
+	// large-files sub-check: element count and sampled cut positions (fractions of the file length, or
+	// negative = bytes before the end)
+	Count int         `json:",omitempty"`
+	Cuts  []float64   `json:",omitempty"`
 	Cols  int         `json:",omitempty"`
 	Rows  [][]float64 `json:",omitempty"`
 	CRLF  bool        `json:",omitempty"`
@@ -99,6 +107,9 @@ func nonZero(d *gen.MeshDesc) {
 
 func genCase(t *rapid.T) Case {
 	c := Case{Kind: rapid.SampledFrom(kinds).Draw(t, "kind")}
+	if rapid.IntRange(0, 2).Draw(t, "shortReads") == 0 {
+		c.Reader = rapid.IntRange(1, rdr.Modes-1).Draw(t, "reader")
+	}
 	switch c.Kind {
 	case "plyref":
 		f := plyref.Gen(t, plyref.Opts{ExcludeAsciiUcharScalar: false, MinVerts: 1, MaxVerts: 5, NonZero: true, ForceFaces: rapid.Bool().Draw(t, "forceFaces")})
@@ -170,9 +181,8 @@ type file struct {
 
 var plyFormats = []ply.Format{ply.ASCII, ply.BinaryLittleEndian, ply.BinaryBigEndian}
 
-func plyDec(b []byte) (*modeling.Mesh, error) { return ply.ReadMesh(bytes.NewReader(b)) }
-
 func build(c Case) (file, bool) {
+	plyDec := func(b []byte) (*modeling.Mesh, error) { return ply.ReadMesh(rdr.For(c.Reader, b)) }
 	switch c.Kind {
 	case "plyref":
 		if c.Ply == nil || len(c.Ply.Props) == 0 {
@@ -198,7 +208,7 @@ func build(c Case) (file, bool) {
 		if err := stl.WriteMesh(buf, c.Mesh.Build()); err != nil {
 			return file{}, false
 		}
-		return file{data: buf.Bytes(), bodyStart: 84, dec: func(b []byte) (*modeling.Mesh, error) { return stl.ReadMesh(bytes.NewReader(b)) }}, true
+		return file{data: buf.Bytes(), bodyStart: 84, dec: func(b []byte) (*modeling.Mesh, error) { return stl.ReadMesh(rdr.For(c.Reader, b)) }}, true
 	case "spz":
 		if len(c.Raw) != spzBodyLen(c) || c.NumPoints < 1 {
 			return file{}, false
@@ -214,7 +224,7 @@ func build(c Case) (file, bool) {
 		w.Write(raw.Bytes())
 		w.Close()
 		return file{data: gz.Bytes(), bodyStart: 10, dec: func(b []byte) (*modeling.Mesh, error) {
-			cl, err := spz.Read(bytes.NewReader(b))
+			cl, err := spz.Read(rdr.For(c.Reader, b))
 			if err != nil {
 				return nil, err
 			}
@@ -225,7 +235,7 @@ func build(c Case) (file, bool) {
 			return file{}, false
 		}
 		return file{data: c.Raw, bodyStart: 0, splat: true, dec: func(b []byte) (*modeling.Mesh, error) {
-			m, err := splat.Read(bytes.NewReader(b))
+			m, err := splat.Read(rdr.For(c.Reader, b))
 			return &m, err
 		}}, true
 	case "pts":
@@ -250,7 +260,7 @@ func build(c Case) (file, bool) {
 			}
 		}
 		b := []byte(sb.String())
-		return file{data: b, bodyStart: bytes.IndexByte(b, '\n') + 1, ascii: true, dec: func(b []byte) (*modeling.Mesh, error) { return pts.ReadPointCloud(bytes.NewReader(b)) }}, true
+		return file{data: b, bodyStart: bytes.IndexByte(b, '\n') + 1, ascii: true, dec: func(b []byte) (*modeling.Mesh, error) { return pts.ReadPointCloud(rdr.For(c.Reader, b)) }}, true
 	}
 	return file{}, false
 }
@@ -385,56 +395,66 @@ func runCase(c Case, o *vh.Obs) *vh.Failure {
 			continue
 		}
 		cuts++
-		region := "header"
 		if k >= f.bodyStart {
 			inBody++
-			region = "body"
 		}
-		r, returned := decodeWatched(f.dec, f.data[:k])
-		if !returned {
-			return vh.Failf("hang/"+label, "decoding the %d-byte prefix of a %d-byte %s file does not return (cut in %s)\n%q", k, len(f.data), label, region, clip(f.data[:k]))
-		}
-		switch {
-		case r.p != nil:
-			if oracle.PanicKind(r.p) == "crash" {
-				return vh.Failf("panic/"+label, "prefix of %d/%d bytes (cut in %s): %v\n%q", k, len(f.data), region, r.p, clip(f.data[:k]))
-			}
-			o.Class(label + "/reported-by-panic")
-		case f.splat:
-			n := k / 32
-			if r.m == nil {
-				if r.err == nil {
-					return vh.Failf("nil-without-error/"+label, "prefix %d/%d: nil mesh and nil error", k, len(f.data))
-				}
-				continue
-			}
-			rel := relate(r.m, full.m)
-			if rel != "equal" && rel != "subset" {
-				return vh.Failf("fabricated/"+label, "prefix %d/%d bytes: %s", k, len(f.data), rel)
-			}
-			if r.m.Indices().Len() != n {
-				return vh.Failf("splat-record-count", "prefix of %d bytes returned %d splats, exactly %d are fully contained", k, r.m.Indices().Len(), n)
-			}
-			o.Class(label + "/complete-records-only")
-		case r.err != nil:
-			o.Class(label + "/error")
-		case r.m == nil:
-			return vh.Failf("nil-without-error/"+label, "prefix %d/%d: nil mesh and nil error", k, len(f.data))
-		default:
-			rel := relate(r.m, full.m)
-			switch rel {
-			case "equal":
-				o.Class(label + "/ok-equal-full")
-			case "subset":
-				o.Class(label + "/ok-value-equal-subset")
-			default:
-				return vh.Failf("fabricated/"+label, "prefix of %d/%d bytes (cut in %s) decodes without error but %s\n%q", k, len(f.data), region, rel, clip(f.data[:k]))
-			}
+		if fl := judgeCut(f, full.m, k, label, 0, o); fl != nil {
+			return fl
 		}
 	}
 	o.Evals(cuts)
 	o.NonTrivialSubs(inBody)
 	o.Class("file/" + label)
+	return nil
+}
+
+// judgeCut decodes the k-byte prefix and classifies the outcome against the decode of the complete file.
+func judgeCut(f file, full *modeling.Mesh, k int, label string, _ int, o *vh.Obs) *vh.Failure {
+	region := "header"
+	if k >= f.bodyStart {
+		region = "body"
+	}
+	r, returned := decodeWatched(f.dec, f.data[:k])
+	if !returned {
+		return vh.Failf("hang/"+label, "decoding the %d-byte prefix of a %d-byte %s file does not return (cut in %s)\n%q", k, len(f.data), label, region, clip(f.data[:k]))
+	}
+	switch {
+	case r.p != nil:
+		if oracle.PanicKind(r.p) == "crash" {
+			return vh.Failf("panic/"+label, "prefix of %d/%d bytes (cut in %s): %v\n%q", k, len(f.data), region, r.p, clip(f.data[:k]))
+		}
+		o.Class(label + "/reported-by-panic")
+	case f.splat:
+		n := k / 32
+		if r.m == nil {
+			if r.err == nil {
+				return vh.Failf("nil-without-error/"+label, "prefix %d/%d: nil mesh and nil error", k, len(f.data))
+			}
+			return nil
+		}
+		rel := relate(r.m, full)
+		if rel != "equal" && rel != "subset" {
+			return vh.Failf("fabricated/"+label, "prefix %d/%d bytes: %s", k, len(f.data), rel)
+		}
+		if r.m.Indices().Len() != n {
+			return vh.Failf("splat-record-count", "prefix of %d bytes returned %d splats, exactly %d are fully contained", k, r.m.Indices().Len(), n)
+		}
+		o.Class(label + "/complete-records-only")
+	case r.err != nil:
+		o.Class(label + "/error")
+	case r.m == nil:
+		return vh.Failf("nil-without-error/"+label, "prefix %d/%d: nil mesh and nil error", k, len(f.data))
+	default:
+		rel := relate(r.m, full)
+		switch rel {
+		case "equal":
+			o.Class(label + "/ok-equal-full")
+		case "subset":
+			o.Class(label + "/ok-value-equal-subset")
+		default:
+			return vh.Failf("fabricated/"+label, "prefix of %d/%d bytes (cut in %s) decodes without error but %s\n%q", k, len(f.data), region, rel, clip(f.data[:k]))
+		}
+	}
 	return nil
 }
 
@@ -445,7 +465,137 @@ func clip(b []byte) []byte {
 	return b
 }
 
+// ---------------------------------------------------------------- large files, sampled cuts
+
+// Element counts around the sizes at which readers typically switch to block-wise reading.
+var boundaryCounts = []int{255, 256, 1023, 1024, 2730, 2731, 4095, 4096, 4097, 5460, 5461, 5462, 8192, 10922, 12288, 16384}
+
+func genLarge(t *rapid.T) Case {
+	c := Case{Kind: rapid.SampledFrom([]string{"large-stl", "large-ply", "large-ply"}).Draw(t, "kind"), Format: rapid.IntRange(1, 2).Draw(t, "format"),
+		Cols: rapid.SampledFrom([]int{3, 4, 6, 7}).Draw(t, "floatsPerVertex")}
+	if rapid.IntRange(0, 3).Draw(t, "boundary") != 0 {
+		c.Count = rapid.SampledFrom(boundaryCounts).Draw(t, "count")
+		if rapid.IntRange(0, 3).Draw(t, "blocks") == 0 { // a vertex count that fills 64 KiB blocks exactly for this record size
+			c.Count = (65536 / (4 * c.Cols)) * rapid.IntRange(1, 3).Draw(t, "nblocks")
+		}
+	} else {
+		c.Count = rapid.IntRange(200, 20000).Draw(t, "countAny")
+	}
+	if rapid.IntRange(0, 3).Draw(t, "shortReads") == 0 {
+		c.Reader = rapid.IntRange(2, rdr.Modes-1).Draw(t, "reader") // not the one-byte reader: files are large
+	}
+	for i := 0; i < 24; i++ {
+		switch rapid.IntRange(0, 3).Draw(t, "cutKind") {
+		case 0:
+			c.Cuts = append(c.Cuts, -float64(rapid.IntRange(1, 400).Draw(t, "fromEnd")))
+		default:
+			c.Cuts = append(c.Cuts, rapid.Float64Range(0, 1).Draw(t, "cutAt"))
+		}
+	}
+	return c
+}
+
+func buildLarge(c Case) (file, bool) {
+	n := c.Count
+	if n <= 0 || n > 200000 {
+		return file{}, false
+	}
+	val := func(i, k int) float64 { return float64((i*7+k*3)%1000+1) / 8 } // never zero
+	switch c.Kind {
+	case "large-stl":
+		pos := make([]vector3.Float64, 3*n)
+		idx := make([]int, 3*n)
+		for i := range pos {
+			pos[i] = vector3.New(val(i, 0), val(i, 1), val(i, 2))
+			idx[i] = i
+		}
+		buf := &bytes.Buffer{}
+		if err := stl.WriteMesh(buf, modeling.NewTriangleMesh(idx).SetFloat3Attribute(modeling.PositionAttribute, pos)); err != nil {
+			return file{}, false
+		}
+		return file{data: buf.Bytes(), bodyStart: 84, dec: func(b []byte) (*modeling.Mesh, error) { return stl.ReadMesh(rdr.For(c.Reader, b)) }}, true
+	case "large-ply":
+		pos := make([]vector3.Float64, n)
+		for i := range pos {
+			pos[i] = vector3.New(val(i, 0), val(i, 1), val(i, 2))
+		}
+		v3 := map[string][]vector3.Float64{modeling.PositionAttribute: pos}
+		v1 := map[string][]float64{}
+		if c.Cols >= 6 {
+			nrm := make([]vector3.Float64, n)
+			for i := range nrm {
+				nrm[i] = vector3.New(val(i, 3), val(i, 4), val(i, 5))
+			}
+			v3[modeling.NormalAttribute] = nrm
+		}
+		if c.Cols == 4 || c.Cols == 7 {
+			op := make([]float64, n)
+			for i := range op {
+				op[i] = val(i, 6)
+			}
+			v1[modeling.OpacityAttribute] = op
+		}
+		buf := &bytes.Buffer{}
+		if err := ply.Write(buf, modeling.NewPointCloud(nil, v3, nil, v1, nil), plyFormats[c.Format%3]); err != nil {
+			return file{}, false
+		}
+		b := buf.Bytes()
+		return file{data: b, bodyStart: bytes.Index(b, []byte("end_header\n")) + len("end_header\n"), ascii: c.Format%3 == 0,
+			dec: func(b []byte) (*modeling.Mesh, error) { return ply.ReadMesh(rdr.For(c.Reader, b)) }}, true
+	}
+	return file{}, false
+}
+
+func runLarge(c Case, o *vh.Obs) *vh.Failure {
+	f, ok := buildLarge(c)
+	if !ok {
+		return nil
+	}
+	label := c.Kind
+	full, okFull := decodeWatched(f.dec, f.data)
+	if !okFull {
+		return vh.Failf("hang/"+label+"/complete-file", "decoding the complete %d-byte file does not terminate", len(f.data))
+	}
+	if full.p != nil || full.err != nil || full.m == nil {
+		return vh.Failf("large-complete-file-rejected/"+label, "the complete %d-element file written by polyform does not decode: %v %v", c.Count, full.err, full.p)
+	}
+	done := 0
+	for _, cf := range c.Cuts {
+		k := int(cf * float64(len(f.data)))
+		if cf < 0 {
+			k = len(f.data) + int(cf)
+		}
+		if k < 0 || k >= len(f.data) {
+			continue
+		}
+		if f.ascii && k > f.bodyStart && isNum(f.data[k-1]) && isNum(f.data[k]) {
+			continue
+		}
+		done++
+		if fl := judgeCut(f, full.m, k, label, 0, o); fl != nil {
+			return fl
+		}
+	}
+	o.Evals(done)
+	o.NonTrivialSubs(done)
+	o.Class(fmt.Sprintf("large/%s/%d-floats", c.Kind, c.Cols))
+	for _, bc := range boundaryCounts {
+		if c.Count == bc {
+			o.Class("large/boundary-count")
+		}
+	}
+	if c.Count%(65536/(4*c.Cols)) == 0 {
+		o.Class("large/fills-64KiB-blocks-exactly")
+	}
+	return nil
+}
+
 func TestC14(t *testing.T) {
+	vh.Drive(t, vh.Spec[Case]{Name: "large-files", Quick: 640, Thorough: 24000, Gen: genLarge, Run: runLarge,
+		Sample: func(c Case) any {
+			return map[string]any{"kind": c.Kind, "count": c.Count, "floats": c.Cols, "cuts": c.Cuts, "reader": c.Reader}
+		},
+		Key: func(c Case) string { return fmt.Sprint(c.Kind, c.Count, c.Cols, c.Format, c.Reader, c.Cuts) }})
 	vh.Drive(t, vh.Spec[Case]{Name: "cuts", Quick: 12000, Thorough: 150000, Gen: genCase, Run: runCase,
 		Sample: func(c Case) any {
 			f, ok := build(c)
